@@ -221,6 +221,41 @@ pub fn run(tier: Tier) -> i32 {
         boards.fetch_add(local_boards, Ordering::Relaxed);
     });
 
+    // the occupancies real positions have, whatever stands on the looked-up square: the start
+    // position, the well-known roots and everything within two plies of them, for all 64 squares and
+    // both slider kinds (a lookup may only depend on the bits on the square's rays)
+    let real_n = AtomicU64::new(0);
+    {
+        let collect = std::sync::Mutex::new(std::collections::HashSet::new());
+        crate::families::reach(&crate::families::roots(), 2, &|p: &Pos, _| {
+            let mut occ = 0u64;
+            for sq in 0..64u8 {
+                if p.board[sq as usize] != EMPTY {
+                    occ |= 1u64 << sq;
+                }
+            }
+            collect.lock().unwrap().insert(occ);
+        });
+        let mut occs: Vec<u64> = collect.into_inner().unwrap().into_iter().collect();
+        occs.push(0xFFFF_0000_0000_FFFF);
+        occs.push(0xFFFF_FFFF_FFFF_FFFF);
+        occs.push(0);
+        occs.sort();
+        occs.dedup();
+        par_map(&occs, |&occ| {
+            for rook in [true, false] {
+                for sq in 0..64u8 {
+                    real_n.fetch_add(1, Ordering::Relaxed);
+                    let got = inkayaku_board::verif::in_use::slider(rook, sq as u32, occ);
+                    let want = ref_attacks(rook, sq, occ);
+                    if got != want {
+                        rep.report(format!("wrong_attack_set:{}:occupancy_of_a_real_position", if rook { "rook" } else { "bishop" }), json!({"kind": "lookup", "piece": if rook { "rook" } else { "bishop" }, "square": sq_name(sq), "occupancy": occ, "expected": want, "actual": got, "variant": "occupancy of a real position"}));
+                        return;
+                    }
+                }
+            }
+        });
+    }
     // leapers
     let names = ["king", "knight", "white_pawn", "black_pawn"];
     let mut leaper_entries = 0u64;
@@ -272,6 +307,7 @@ pub fn run(tier: Tier) -> i32 {
     cov.set("relevant_mask_configurations", json!(relevant_configs.load(Ordering::Relaxed)));
     cov.set("table_lookups", json!(lookups.load(Ordering::Relaxed)));
     cov.set("leaper_entries", json!(leaper_entries));
+    cov.set("lookups_with_occupancies_of_real_positions", json!(real_n.load(Ordering::Relaxed)));
     cov.set("boards_through_move_generation", json!(boards.load(Ordering::Relaxed)));
     cov.set("explanation", json!("for each of 64 squares x {rook, bishop}: every subset of the full ray set (edge squares included), each also with all off-ray bits set and with each single off-ray bit set; index < table length checked before every unchecked lookup; all 4x64 leaper entries; every subset of the relevant-blocker mask additionally driven through FEN + generate_pseudo_legal_moves with a lone rook/bishop/queen"));
     cov.samples = vec![json!({"piece": "rook", "square": "d4", "occupancy_subset_of_rays": "0x0008000000080000", "oracle": "ray walk until first blocker, blocker included"}), json!({"leaper": "knight", "square": "a1", "expected": ref_leaper(1, 56)})];
